@@ -63,7 +63,7 @@ let proj (st : state) : string =
       (List.map (fun (nm, t) ->
            let m = int_of_n t.t_m and u = int_of_n t.t_u in
            Printf.sprintf "%d:%d:%d:%d:%d" (int_of_n nm) (int_of_n t.t_def.d_id) (m land (lnot u)) u (bset t.t_conv))
-         (List.rev st.tags)) in
+         (List.rev (List.filter (fun (_, t) -> t.t_live) st.tags))) in
   let tc = String.concat ";" (List.map (fun c -> Printf.sprintf "%d:%d" (int_of_n c) (int_of_n (st.toconv c))) st.convs) in
   let nx = int_of_n st.next in
   let ca =
